@@ -25,7 +25,7 @@ CLAIMED = {
         design="4/C16"),
     "C14": dict(
         technique="MIR path-sensitive guard analysis across contracts: pause / open / registered guards as facts on every success path of the tabled arms, cross-contract query parsing, registry guards, shutdown filter",
-        note="Decided: R14.1 State.pause tested on every success path of Open/Close/Deposit/Withdraw and never consulted by the Liquidate/PayFunding chains; R14.2 vAMM State.open tested in SwapInput/SwapOutput/SettleFunding; R14.3 IsVamm{msg.vamm} on config.insurance_fund and State.open of msg.vamm in Open/Liquidate/Withdraw/PayFunding; R14.4 duplicate and capacity(=3) guards before every registry store, membership queries read the same item; R14.5 shutdown emits SetOpen{false} only for vAMMs just read as open. Not decided: the run-time effect of a closed vAMM on ClosePosition is the composition of R14.2 with C08 (not re-derived).",
+        note="Decided: R14.1 State.pause tested on every success path of Open/Close/Deposit/Withdraw and never consulted by the Liquidate/PayFunding chains; R14.2 vAMM State.open tested in SwapInput/SwapOutput/SettleFunding; R14.3 IsVamm{msg.vamm} on config.insurance_fund and State.open of msg.vamm in Open/Liquidate/Withdraw/PayFunding; R14.4 duplicate and capacity(=3) guards before every registry store, membership queries read the same item; R14.5 shutdown emits SetOpen{false} only for vAMMs just read as open, a closed vAMM does not end the iteration, and the registry is read whole (limit = the capacity constant). Not decided: the run-time effect of a closed vAMM on ClosePosition is the composition of R14.2 with C08 (not re-derived).",
         design="4/C14"),
     "C10": dict(
         technique="MIR stored-value flow: origin of the (vamm, trader) pair in every position store/remove key and in every tmp-swap store, per execute->reply chain step; field-assignment census; query entry signatures; unsafe census with fixture",
@@ -45,15 +45,15 @@ CLAIMED = {
         design="4/C20"),
     "C15": dict(
         technique="MIR cross-contract constant propagation of the fluctuation flag, guard facts of the vAMM band check before every reserve write, decision-tree and query-argument analysis of ClosePosition, reference-snapshot selection and Env plumbing",
-        note="Decided: R15.1 every SwapInput on the OpenPosition chains (incl. the chained increase after a reversal) carries can_go_over_fluctuation=false; R15.2 reserve writes are preceded by the strict, unconditional already-outside test and by the would-leave test unless the flag is set; R15.3 ClosePosition's fluctuation query uses the position's closing direction and whole size; R15.4 partial close iff over-limit and ratio<1, amount = size*ratio/decimals; R15.5 previous snapshot iff latest is from this block and not the first, callers pass Env unchanged. Not decided: the band arithmetic itself.",
+        note="Decided: R15.1 every SwapInput on the OpenPosition chains (incl. the chained increase after a reversal) carries can_go_over_fluctuation=false; R15.2 reserve writes are preceded by the strict, unconditional already-outside test and by the would-leave test unless the flag is set; R15.3 ClosePosition's fluctuation query uses the position's closing direction and whole size; R15.4 partial close iff over-limit and ratio<1, amount = size*ratio/decimals; R15.5 previous snapshot iff latest is from this block and not the first, callers pass Env unchanged; R15.6 the band is p*(D-r)/D .. p*(D+r)/D around the reference snapshot's quote*D/base with r = config.fluctuation_limit_ratio, and what is compared with it is the current price q*D/b and the post-trade price (q+/-x)*D/(b-/+y) of the stored reserves per direction. Not decided: rounding of the band arithmetic (floor-truncated prices).",
         design="4/C15"),
     "C11": dict(
         technique="MIR expression-tree normalisation and pattern matching (formula identity) for the funding formulas, guard facts for the schedule, stored-value flow for the charge/checkpoint pairing",
-        note="Decided: R11.1 SettleFunding success paths establish now >= next_funding_time; R11.2 premium fraction tree (twap_vamm - twap_oracle)*period/86400 behind the emitted attribute and the funding rate, next funding time max(aligned, now+buffer), buffer = period/2 only at instantiate; R11.3 one append per reply path, cumulative = last + new, payment = tps*fraction/decimals, sign table (negative -> insurance Withdraw(|p|), positive -> transfer to insurance fund, zero -> nothing); R11.4 margin and checkpoint come from the same remain-margin result at every position store or are both untouched/reset; R11.5 every reply that ends a position (close, liquidation, reversal) settles the outstanding funding payment into the margin it pays out or carries over (found F11, fixed); R11.6 every token-moving message of the funding reply has a provably non-zero amount (found F18, fixed); R11.7 where a remain-margin result's clamped margin is stored with the advanced checkpoint its bad_debt is consumed on the path (known findings F17 x2: update_position_reply drops it); R11.8 the remain-margin function's own trees (funding formula, latest fraction queried on every path, clamped margin / bad debt). Not decided: TWAP values (C18), numeric exactness beyond formula identity, the cap min(balance, p) arithmetic.",
+        note="Decided: R11.1 SettleFunding success paths establish now >= next_funding_time; R11.2 premium fraction tree (twap_vamm - twap_oracle)*period/86400 behind the emitted attribute and the funding rate, next funding time max(aligned, now+buffer), buffer = period/2 only at instantiate; R11.3 one append per reply path, cumulative = last + new, payment = tps*fraction/decimals, sign table (negative -> insurance Withdraw(|p|), positive -> transfer to insurance fund, zero -> nothing); R11.4 margin and checkpoint come from the same remain-margin result at every position store or are both untouched/reset; R11.5 every reply that ends a position (close, liquidation, reversal) settles the outstanding funding payment into the margin it pays out or carries over (found F11, fixed); R11.6 every token-moving message of the funding reply has a provably non-zero amount (found F18, fixed); R11.7 where a remain-margin result's clamped margin is stored with the advanced checkpoint its bad_debt is consumed on the path (known findings F17 x2: update_position_reply drops it); R11.8 the remain-margin function's own trees (funding formula, latest fraction = the LAST element of the stored list queried on every path, clamped margin / bad debt); R11.9 the funding transfer capped at the vault balance sends min(balance, amount): the balance only under balance <= amount, the amount only under amount <= balance. Not decided: TWAP values (C18), numeric exactness beyond formula identity.",
         design="4/C11"),
     "C04": dict(
         technique="MIR guard facts, expression-tree pattern matching of the payout and margin-delta formulas, sibling agreement close/liquidation, &mut State effect tracking for the prepaid-bad-debt accounting",
-        note="Decided: R04.1 close/partial-close replies succeed only with bad_debt==0 of their remain-margin result; R04.2 close reply removes the position; R04.3 margin_delta = output - open_notional (long) / reverse (short), payout = |remain_margin.margin + tmp.unrealized_pnl| to tmp.trader, whole-close record carries unrealized_pnl=0 and open_notional=position.notional; R04.4 liquidation uses the same margin_delta table; R04.5 an insurance Withdraw for a shortfall is added to prepaid_bad_debt with the same operand and mutated State is stored; R04.6 funding charged once (margin/checkpoint pairing); R04.7 every transfer of the magnitude |X| of a signed quantity is preceded by a sign test of X on its path (found F14: the reversal's pure-close branch paid out bad debt; fixed). Not decided: numeric exactness beyond formula identity; balances.",
+        note="Decided: R04.1 close/partial-close replies succeed only with bad_debt==0 of their remain-margin result; R04.2 close reply removes the position; R04.3 margin_delta = output - open_notional (long) / reverse (short), payout = |remain_margin.margin + tmp.unrealized_pnl| to tmp.trader, whole-close record carries unrealized_pnl=0 and open_notional=position.notional; R04.4 liquidation uses the same margin_delta table; R04.5 an insurance Withdraw for a shortfall is added to prepaid_bad_debt with the same operand and mutated State is stored; R04.6 funding charged once (margin/checkpoint pairing); R04.7 every transfer of the magnitude |X| of a signed quantity is preceded by a sign test of X on its path (found F14: the reversal's pure-close branch paid out bad debt; fixed); R04.8 the vault balance that sizes insurance draws is the engine's own balance of the collateral token (balance query asks for (token, account) as given in both arms; every engine call site passes config.eligible_collateral and env.contract.address); R04.9 open-notional bookkeeping (increase stores loaded notional + record.open_notional; the record holds the quote amount the SwapInput asks for). Not decided: numeric exactness beyond formula identity; balances; the reducing branch's notional formula.",
         design="4/C04"),
     "C12": dict(
         technique="MIR path census of fee-transfer invocations per chain step keyed by the fees_paid / zero-base conditions, constant propagation of the flag through the in-flight record, operand-origin and formula matching for fee base, routing and CalcFee",
@@ -61,15 +61,15 @@ CLAIMED = {
         design="4/C12"),
     "C05": dict(
         technique="MIR guard facts with formula matching of the compared operands, event ordering on success paths (store before margin-ratio query), stored-value and transfer-amount flow",
-        note="Decided: R05.1 leverage >= decimals and decimals^2/leverage >= config.initial_margin_ratio on every OpenPosition success path; R05.2 every Open chain ending with a live stored position queries that position's margin ratio after the store and establishes it >= config.maintenance_margin_ratio; R05.3 WithdrawMargin: bad-debt guard, signed (free collateral - amount) >= 0 guard for (msg.vamm, info.sender), payout exactly msg.amount to info.sender, stored margin = remain_margin(position, -amount).margin; R05.4 DepositMargin stores margin + msg.amount and collects exactly msg.amount in both collateral arms (the native attached-funds assertion is an equality). Not decided: correctness of the margin-ratio / free-collateral formulas beyond operand selection (R06.3).",
+        note="Decided: R05.1 leverage >= decimals and decimals^2/leverage >= config.initial_margin_ratio on every OpenPosition success path; R05.2 every Open chain ending with a live stored position queries that position's margin ratio after the store and establishes it >= config.maintenance_margin_ratio; R05.3 WithdrawMargin: bad-debt guard, signed (free collateral - amount) >= 0 guard for (msg.vamm, info.sender), payout exactly msg.amount to info.sender, stored margin = remain_margin(position, -amount).margin; R05.4 DepositMargin stores margin + msg.amount and collects exactly msg.amount in both collateral arms (the native attached-funds assertion is an equality). R05.5 free collateral = min(margin, margin + pnl) - requirement notional * config.initial_margin_ratio / decimals (margin alone iff pnl > 0; open notional of a long, current notional of a short); R05.6 the position it is computed on carries margin = max(0, stored margin - (latest cumulative fraction - checkpoint) * size / decimals); R05.7 the increase reply credits and collects record.open_notional * decimals / record.leverage, the record holds msg.leverage and msg.margin_amount * msg.leverage / decimals. Not decided: correctness of the margin-ratio / free-collateral formulas beyond operand selection (R06.3).",
         design="4/C05"),
     "C06": dict(
         technique="MIR guard facts and expression-tree pattern matching: liquidation guard and ratio selection, spot/TWAP selection sibling agreement, spread-limit tree, fee and partial-amount trees, receiver classes",
-        note="Decided: R06.1 selected ratio <= maintenance on every Liquidate success path; R06.2 oracle ratio selected iff over-spread and (oracle - base) > 0, else the base ratio of (msg.vamm, msg.trader); R06.3 TWAP figures iff |spot pnl| > |twap pnl| in MarginRatio and FreeCollateral; R06.4 |((quote*D/base - oracle)*D)/oracle| >= D/10; R06.5 liquidator fee (output*fee/D)/2, only liquidator and insurance fund receive, the insurance fund exactly remain_margin - fee, position removed; R06.6 partial swap amount size*ratio/D, equal penalty halves; R06.7 both margin-ratio functions return ((remain_margin.margin - remain_margin.bad_debt)*D)/notional with remain_margin charged with the pnl of the same figures (funding included). Not decided: numeric outcome; overshoot of a partial liquidation (C02 sign table).",
+        note="Decided: R06.1 selected ratio <= maintenance on every Liquidate success path; R06.2 oracle ratio selected iff over-spread and (oracle - base) > 0, else the base ratio of (msg.vamm, msg.trader); R06.3 TWAP figures iff |spot pnl| > |twap pnl| in MarginRatio and FreeCollateral; R06.4 |((quote*D/base - oracle)*D)/oracle| >= D/10; R06.5 liquidator fee (output*fee/D)/2, only liquidator and insurance fund receive, the insurance fund exactly remain_margin - fee, position removed; R06.6 partial swap amount size*ratio/D, equal penalty halves; R06.7 both margin-ratio functions return ((remain_margin.margin - remain_margin.bad_debt)*D)/notional with remain_margin charged with the pnl of the same figures (funding included); R06.8 valuation per calc option: Twap -> vAMM OutputTwap, SpotPrice -> OutputAmount of (position.direction, |size|) at position.vamm, Oracle -> UnderlyingPrice*|size|/decimals, pnl signed by the position's direction. Not decided: numeric outcome; overshoot of a partial liquidation (C02 sign table).",
         design="4/C06"),
     "C13": dict(
         technique="MIR sibling-arm agreement on every branch over the collateral kind: transfer constructors compared by (receiver, amount), native required-funds increments compared as a multiset with the amounts the cw20 arm pulls from the trader on the path with the same other conditions",
-        note="Decided (the structural clause the 2-run relation rests on): R13.1 native and cw20 arms of every transfer constructor build the same (receiver, amount); R13.1b in the Open replies the native arm raises SentFunds.required by exactly what the cw20 arm pulls from the trader; R13.2 native terminal paths pass the exact-match check, the check accepts equality only, SentFunds is created only by OpenPosition with required=0; R13.3 every cw20 pull a chain step can emit is from the caller of the transaction (the premise only lets a native call mirror pulls from the caller); R13.4 arms whose chain pulls from the caller never condition success on the attached coins beyond the collateral-coin lookup; R13.5 no reply of a chain whose attached native coins are untracked sizes an insurance top-up from the engine balance (known finding F10: whole-close reply). Not decided: equality of the two runs' outcomes as such; allowance/balance failure modes.",
+        note="Decided (the structural clause the 2-run relation rests on): R13.1 native and cw20 arms of every transfer constructor build the same (receiver, amount); R13.1b in the Open replies the native arm raises SentFunds.required by exactly what the cw20 arm pulls from the trader; R13.2 native terminal paths pass the exact-match check, the check accepts equality only, SentFunds is created only by OpenPosition with required=0; R13.3 every cw20 pull a chain step can emit is from the caller of the transaction (the premise only lets a native call mirror pulls from the caller); R13.1 is evaluated on the value each constructor returns, at every call site where the cw20 message is a parameter, with coverage asserted per (contract, transfer kind); R13.4 arms whose chain pulls from the caller never condition success on the attached coins beyond the collateral-coin lookup; R13.5 no reply of a chain whose attached native coins are untracked sizes an insurance top-up from the engine balance (known finding F10: whole-close reply). Not decided: equality of the two runs' outcomes as such; allowance/balance failure modes.",
         design="4/C13"),
     "C19": dict(
         technique="finite-domain abstract interpretation of the extracted MIR paths of every Integer operation over the complete sign x zero-ness x magnitude-order case space, compared with the mathematical table",
@@ -89,7 +89,7 @@ CLAIMED = {
         design="4/C07"),
     "C18": dict(
         technique="MIR writer census and pairing for reserve snapshots, stored-value flow for the price feed, and linear (telescoping) check of the TWAP weights on the bounded-unrolled prefix of the two averaging loops",
-        note="Decided: R18.1 snapshots are written only by instantiate and the snapshot writer, which follows every reserve write with the stored reserves; R18.2 overwrite iff same block, else append stamped (time, height); R18.3 price submissions stored unmodified, GetPrice returns the last stored element, GetPreviousPrice stays strictly below the latest round id (found F19, fixed); R18.4 on every TWAP path that ends within one unrolled iteration the result is one observed price or sum(price*w)/D with weights telescoping to D, and the loop has no iterator-driven exit. Not decided: the convexity claim for histories longer than the unrolled prefix (loop-carried weights), which is arithmetic.",
+        note="Decided: R18.1 snapshots are written only by instantiate and the snapshot writer, which follows every reserve write with the stored reserves; R18.2 overwrite iff same block, else append stamped (time, height); R18.3 price submissions stored unmodified, GetPrice returns the last stored element, GetPreviousPrice stays strictly below the latest round id (found F19, fixed); R18.4 on every TWAP path that ends within one unrolled iteration the result is one observed price or sum(price*w)/D with weights telescoping to D, and the loop has no iterator-driven exit; R18.3 also: a submission's round id is the length of the list it is appended to; R18.5 the vAMM's TwapPrice / InputTwap / OutputTwap queries average, per snapshot, snapshot.quote*D/snapshot.base / the input / the output pricing function of (msg.direction, msg.amount, snapshot reserves), starting at snapshot[counter], over msg.interval / 900 s (composition of the arm's parameter value with the per-snapshot price function). Not decided: the convexity claim for histories longer than the unrolled prefix (loop-carried weights), which is arithmetic.",
         design="4/C18"),
 }
 
